@@ -10,6 +10,8 @@ open Compio.SharedFd
 def Stuck (s : St) (c : Nat) : Prop :=
   s.actors[c]? = some (.closer .parked) ∧ s.count = 1 ∧ c ∉ s.woken ∧ refs s.actors = 1
 
+instance (s : St) (c : Nat) : Decidable (Stuck s c) := by unfold Stuck; infer_instance
+
 /-- F8, first shape (`sync` build): the dropper's wake is issued BEFORE its decrement; the woken closer
 re-polls in between, still sees 2, parks again; the decrement follows and nobody wakes the closer. -/
 theorem sync_wake_before_decrement_counterexample :
